@@ -942,6 +942,50 @@ impl<F: FromUniformBytes<64> + Ord> MockProver<F> {
             )
         };
 
+        // Check that the constraints attached with an additive selector (trash
+        // arguments) are satisfied on every row where their selector is enabled.
+        // (With the selector off, the trash column absorbs any value.)
+        let trash_errors = self.cs.trashcans.iter().enumerate().flat_map(|(trash_index, trash)| {
+            let gate_index = self.cs.gates.len() + trash_index;
+            gate_row_ids
+                .iter()
+                .filter(|&&row| load(trash.selector(), row) == Value::Real(F::ONE))
+                .flat_map(|&row| {
+                    trash
+                        .constraint_expressions()
+                        .iter()
+                        .enumerate()
+                        .filter_map(|(poly_index, poly)| match load(poly, row) {
+                            Value::Real(x) if x.is_zero_vartime() => None,
+                            Value::Real(_) => Some(VerifyFailure::ConstraintNotSatisfied {
+                                constraint: (
+                                    (gate_index, trash.name()).into(),
+                                    poly_index,
+                                    "additive-selector constraint",
+                                )
+                                    .into(),
+                                location: FailureLocation::find_expressions(
+                                    &self.cs,
+                                    &self.regions,
+                                    row,
+                                    Some(poly).into_iter(),
+                                ),
+                                cell_values: vec![],
+                            }),
+                            Value::Poison => Some(VerifyFailure::ConstraintPoisoned {
+                                constraint: (
+                                    (gate_index, trash.name()).into(),
+                                    poly_index,
+                                    "additive-selector constraint",
+                                )
+                                    .into(),
+                            }),
+                        })
+                        .collect::<Vec<_>>()
+                })
+                .collect::<Vec<_>>()
+        });
+
         let mut cached_table = Vec::new();
         let mut cached_table_identifier = Vec::new();
         // Check that all lookups exist in their respective tables.
@@ -1085,6 +1129,7 @@ impl<F: FromUniformBytes<64> + Ord> MockProver<F> {
         let mut errors: Vec<_> = iter::empty()
             .chain(selector_errors)
             .chain(gate_errors)
+            .chain(trash_errors)
             .chain(lookup_errors)
             .chain(perm_errors)
             .collect();
